@@ -42,6 +42,12 @@ def mk_fc(cont):
             objs[id(o)] = uid
             lst.append(o)
         kw[kind] = lst
+    # as the parser does: an enum or subint declared directly inside an interface is also listed in that interface's `types`
+    # (the very same object) - it is still ONE declaration
+    for itf in kw['interfaces']:
+        for o in kw['enums'] + kw['subints']:
+            if list(o.fqn.items[:-1]) == list(itf.fqn.items):
+                itf.types.elements.append(o)
     fc = ast.FileContents(imports=[ast.Import('Acme.dzn'), ast.Import('a')], filenames=[ast.Filename('a.dzn')], **kw)
     return fc, objs
 
